@@ -143,6 +143,7 @@ pub fn run(ctx: &Ctx) -> i32 {
         match c.st("kind") {
             "params" => check_params(ctx, c.u("K") as u32),
             "tuple" => check_tuple(ctx, &rm::params(c.u("Kp") as usize), c.u("X"), &AtomicU64::new(0)),
+            "object" | "rand" => println!("note: this case kind is reproduced by re-running ./check C15 with the same VERIF_SEED"),
             _ => produce_consume(ctx, c.u("K") as usize, c.u("X"), "recorded"),
         }
         ctx.nontrivial(1);
@@ -289,6 +290,18 @@ pub fn run(ctx: &Ctx) -> i32 {
         let p = rm::params(K);
         pc.push((K, (1 << 24) - 1 + (p.Kp - K) as u64, "last ESI 2^24-1"));
     }
+    // large blocks (W > 32768 from K' = 32601 on: index arithmetic of the LT walk beyond 16 bits): a few
+    // random ESIs and the last one
+    {
+        let mut rng = Rng::derive(ctx.seed(), 1517, 0);
+        for &K in &[32601usize, 40398, 56403] {
+            let p = rm::params(K);
+            for _ in 0..3 {
+                pc.push((K, rng.range(p.Kp as u64, (1 << 24) - 1), "large block, random ESI"));
+            }
+            pc.push((K, (1 << 24) - 1 + (p.Kp - K) as u64, "large block, last ESI 2^24-1"));
+        }
+    }
     // the crate's debug-assertion build re-verifies the solver in O(L^3): keep K' <= 1000 there
     // (the tuple for every overflow-sensitive X, incl. K'=2195, is already evaluated above in both builds)
     if cfg!(debug_assertions) {
@@ -300,6 +313,50 @@ pub fn run(ctx: &Ctx) -> i32 {
     });
     ctx.eval(pc.len());
     ctx.cov("produce_consume_cases", J::i(pc.len()));
+    // consuming through the object decoder: objects whose short blocks have exactly a Table-2 size and whose
+    // long blocks (one symbol more) live in the next table row - every block must be decoded with the
+    // parameters of its own K
+    let rows: Vec<usize> = TABLE2.iter().map(|r| r.0 as usize).filter(|&k| k <= if cfg!(debug_assertions) { 120 } else { 600 }).collect();
+    let n_obj = rows.len() * 2;
+    par_for(n_obj, |i| {
+        let ks = rows[i / 2];
+        let Z = 2 + i % 2;
+        let mut rng = Rng::derive(ctx.seed(), 1518, i as u64);
+        let zl = rng.range(1, Z as u64 - 1) as usize;
+        let kt = Z * ks + zl; // zl blocks of ks+1 symbols, the rest of ks symbols
+        let T = 2usize;
+        let pad = rng.below(T as u64) as usize;
+        let data = rng.bytes(kt * T - pad);
+        let case = J::obj(vec![("kind", J::s("object")), ("KS", J::i(ks)), ("Z", J::i(Z)), ("Kt", J::i(kt))]);
+        let r = guarded(|| {
+            let cfg = Oti::new(data.len() as u64, T as u16, Z as u8, 1, 1);
+            let enc = raptorq::Encoder::new(&data, cfg);
+            let mut dec = raptorq::Decoder::new(cfg);
+            let mut out = None;
+            for (z, be) in enc.get_block_encoders().iter().enumerate().rev() {
+                let k = if z < zl { ks + 1 } else { ks };
+                let lose = [0usize, k / 2, k - 1];
+                for (e, p) in be.source_packets().into_iter().enumerate() {
+                    if !lose.contains(&e) && out.is_none() {
+                        out = dec.decode(p);
+                    }
+                }
+                for p in be.repair_packets(rng.below(50000) as u32, 6) {
+                    if out.is_none() {
+                        out = dec.decode(p);
+                    }
+                }
+            }
+            out
+        });
+        match r {
+            Err(m) => ctx.violation(format!("C15 object-consume KS={ks} Z={Z}"), format!("object of {kt} symbols in {Z} blocks ({zl} of {} symbols, the rest of {ks} = a Table-2 size): producing / consuming its symbols panicked: {}", ks + 1, short(&m, 120)), case),
+            Ok(Some(v)) if v != data => ctx.violation(format!("C15 object-consume-wrong KS={ks} Z={Z}"), format!("object of {kt} symbols in {Z} blocks ({zl} of {} symbols, the rest of {ks} = a Table-2 size): decoded bytes differ from the object", ks + 1), case),
+            _ => {}
+        }
+    });
+    ctx.eval(n_obj);
+    ctx.cov("objects_with_blocks_in_two_neighbouring_table_rows_consumed", J::i(n_obj));
     ctx.sample(|| J::s("K=0..=56403: (K',J,S,H,W,L,P,P1) vs Table 2 + primality"));
     ctx.sample(|| J::s(format!("Tuple[K'=10, X=0] = {:?}", rm::tuple(&rm::params(10), 0))));
     ctx.sample(|| J::s(format!("hostile ISIs {:?}", hl)));
@@ -312,7 +369,7 @@ pub fn run(ctx: &Ctx) -> i32 {
     ctx.floor("tuples_checked_floor", nt, 1_000_000);
     let _ = bad;
     ctx.finish(
-        "(1) every K in 0..=56403 (ascending per thread, then again descending, as row-jumping pairs around every table boundary and in random order, because the look-ups must be functions of K alone): K' = least table size >= K, S and W prime, P1 = least prime >= P, B >= 1, P >= H >= 2, L < 65536, and the crate's parameter functions equal Table 2; (2) Tuple[K',X] from the crate = RFC 5.3.5.4 computed in u64 and in range, for (quick) the first and last 5000 X, 20000 random X and the algebraically derived overflow-sensitive X of every K' / (thorough) every X in 0..2^24+K' for all 477 K'; all 1024 entries of V0..V3 probed through rand; (3) repair packets for the overflow-sensitive ISIs and ESI 2^24-1 are produced, equal Enc with the reference tuple, and are consumed by the decoder without panic. Run in the release build and again in the checked build (debug assertions + overflow checks)",
+        "(1) every K in 0..=56403 (ascending per thread, then again descending, as row-jumping pairs around every table boundary and in random order, because the look-ups must be functions of K alone): K' = least table size >= K, S and W prime, P1 = least prime >= P, B >= 1, P >= H >= 2, L < 65536, and the crate's parameter functions equal Table 2; (2) Tuple[K',X] from the crate = RFC 5.3.5.4 computed in u64 and in range, for (quick) the first and last 5000 X, 20000 random X and the algebraically derived overflow-sensitive X of every K' / (thorough) every X in 0..2^24+K' for all 477 K'; all 1024 entries of V0..V3 probed through rand; (3) repair packets for the overflow-sensitive ISIs, ESI 2^24-1 and (release) random ESIs of blocks with W > 32768 are produced, equal Enc with the reference tuple, and are consumed by the decoder without panic; objects whose blocks fall into two neighbouring Table-2 rows (KS = a table size, KL = KS + 1) are consumed through the object decoder. Run in the release build and again in the checked build (debug assertions + overflow checks)",
         &["Table 2, V0..V3 and the degree thresholds from the golden copy", "reference Rand/Deg/Tuple in u64 arithmetic"],
         vec![("exhaustive", J::B(exhaustive))],
     )
